@@ -491,3 +491,18 @@ def runtime_version(eng, st, fr, args, ins):
 @intr("runtime.GOOS", "runtime.GOARCH")
 def runtime_goos(eng, st, fr, args, ins):
     return "linux"
+
+
+# ---- time.Ticker built by a harness (zzNewTicker): Stop is a no-op (as it is natively for a Ticker not made by NewTicker)
+@intr("(*time.Ticker).Stop", "(*time.Ticker).Reset")
+def ticker_stop(eng, st, fr, args, ins):
+    return None
+
+
+# ---- encoding/json.Marshal: the text is never interpreted by the code under check (it is stored as a blob/text column);
+# it is modelled as 8 unconstrained bytes and a nil error
+@intr("encoding/json.Marshal")
+def json_marshal(eng, st, fr, args, ins):
+    v = eng.fresh(st, "json.marshal", 64, kind="forcebv")
+    bs = tuple(v.to_bytes(8, "big")) if not is_sym(v) else eng.unpack(v, 8)
+    return (eng.new_slice(st, "uint8", bs), None)
